@@ -75,7 +75,10 @@ def make_case(family, i, rng, tier):
     return {'prev': prev, 'items': items, 'compress': compress,
             'mech': next((e['mech'] for e in prev if e['kind'] == 'abandoned'),
                          None),
-            'gaps': [rng.choice([0, 300000, 1200000]) for _ in range(3)],
+            # odd microsecond values: data never arrives exactly on a multiple of
+            # poll / ping_rate, where float rounding (which depends on the
+            # absolute time) would decide between > and <=
+            'gaps': [rng.choice([0, 300007, 1200011]) for _ in range(3)],
             'cut_seed': rng.getrandbits(32), 'seg': 'cuts', 'ncuts': 4,
             'close_last': rng.choice(['server', 'app', 'none'])}
 
@@ -85,7 +88,7 @@ def _prev_conn(e, compress, attempt):
     k = e['kind']
     how = e.get('how', 'eof')
     hs = S.handshake_steps([EXT] if compress else ())
-    end = {'op': how, 'after': 1000}
+    end = {'op': how, 'after': 1009}
     rules = []
     if k == 'mid_http':
         return {'server': hs + [end], 'cut_at': 10 + e['seed'] % 100,
@@ -114,7 +117,7 @@ def _prev_conn(e, compress, attempt):
               'do': [{'op': 'send_text', 'text': u'leftover context ' * 20}]}]
     if k == 'while_closing':
         return {'server': hs + [S.send(peer.enc_frame(1, b'hi')),
-                                {'op': how, 'after': 1500000}]}, \
+                                {'op': how, 'after': 1500017}]}, \
             [{'when': {'name': 'text', 'attempt': attempt},
               'do': [{'op': 'close', 'code': 1001, 'reason': 'going'}]}]
     if k == 'rejected':
@@ -143,8 +146,8 @@ def _prev_conn(e, compress, attempt):
         fr = peer.enc_frame(1, b'one') + peer.enc_frame(9, b'p') + \
             peer.enc_frame(2, b'two', fin=0)
         return {'server': hs + [S.send(fr), S.send(peer.enc_frame(1, b'x'),
-                                                   after=1200000),
-                                {'op': how, 'after': 3000000}]}, rules
+                                                   after=1200019),
+                                {'op': how, 'after': 3000023}]}, rules
     # clean
     return {'server': hs + [S.send(peer.enc_frame(1, b'bye')),
                             S.send(peer.enc_frame(8, peer.enc_close_payload(
@@ -172,9 +175,9 @@ def _last(case, attempt):
     elif case.get('close_last') == 'app':
         tail = [{'op': 'await_close', 'timeout': 9000000},
                 S.send(peer.enc_frame(8, peer.enc_close_payload(1000, 'ack')),
-                       after=400000), S.eof(after=1000)]
+                       after=400031), S.eof(after=1003)]
     else:
-        tail = [S.eof(after=2500000)]
+        tail = [S.eof(after=2500037)]
     sc = ST.stream_scenario(case, enc, tail,
                             extra_headers=[EXT] if compress else ())
     conn = sc['conns'][0]
